@@ -124,6 +124,19 @@ Proof.
   split; [exact (range_trans_wu cbrt n W T)|exact (range_trans_wd cbrt n W T)].
 Qed.
 
+(* on the property's domain no per-node quotient divides by zero: a nonzero (i.e. unmasked) numerator forces a
+   strictly positive denominator, so the model's total division x/0 = 0 is never exercised there and the code
+   cannot produce inf/nan (clustering_coef_bu divides only when k >= 2) *)
+Theorem C09_no_division_by_zero : forall cbrt n W i, nodiag n W -> (i < n)%nat ->
+  (binary n W -> ~ tri_dir n W i == 0 -> 0 < poss_dir n W i) /\
+  (cbrt_ok cbrt n W -> unit_weights n W -> ~ tri_dir n (mmap cbrt W) i == 0 -> 0 < poss_dir n (mmap nzQ W) i) /\
+  (cbrt_ok cbrt n W -> unit_weights n W -> symmetric n W -> ~ diag3 n (mmap cbrt W) i == 0 ->
+     0 < kdeg n W i * (kdeg n W i - 1)).
+Proof.
+  intros cbrt n W i Hd Hi. split; [intros Hb; exact (no_div0_bd n W i Hb Hd Hi)|].
+  split; [intros Hc Hu; exact (no_div0_wd cbrt n W i Hc Hu Hd Hi)|intros Hc Hu Hs; exact (no_div0_wu cbrt n W i Hc Hu Hs Hd Hi)].
+Qed.
+
 (* ---- non-vacuity: concrete inputs meet the hypotheses and the values are non-trivial ---- *)
 Ltac bounded3 := let a := fresh "a" in let b := fresh "b" in let Ha := fresh in let Hb := fresh in
   intros a b Ha Hb;
@@ -179,3 +192,4 @@ Print Assumptions C09_range_01_wu.
 Print Assumptions C09_range_01_wd.
 Print Assumptions C09_range_01_wu_sign.
 Print Assumptions C09_range_01_trans.
+Print Assumptions C09_no_division_by_zero.
